@@ -94,6 +94,7 @@ MISSED_FIRST = {
     "C02-g3": "caught — measured after a document with the attribute form of branch_length had been added from the author's summary; the version before would have missed it",
     "C15-g1": "caught — measured after the copy step on trees with thousands of tips had been added from the author's summary; the version before would have missed it",
     "C04-g1": "not kept: the pinned suite fails with it (tests/TestEdgeIndex2) on this 16-core machine, so it is not a change that passes the existing tests",
+    "C18-f2": "missed: no text written by a C18 case exceeded 64 KiB (1001 to 1025 tips with short names: about 20 KiB); caught after big trees with long taxon names (75 KiB per tree) were drawn",
     "C18-n3": "only evaluated after the second strengthening round (interfering command between two runs of a template); the first version would have missed it",
 }
 # changes written for one property that do not break it within its quantifier but break another one (whose check is the one that must catch them)
